@@ -13,7 +13,8 @@ TECHNIQUE = 'differential table: operation on the real value vs on the proxy ret
 LEVEL_TEXT = ('The finite table operation-family x operand-class x proxy placement is enumerated completely in both '
               'tiers: each cell applies the operation to the value student code produced and to the proxy that '
               'call()/evaluate() returned, and compares success, unwrapped value and type, captured stdout and the '
-              'NotImplemented sentinel. Thorough adds random operand values per class.')
+              'NotImplemented sentinel. Thorough adds random operand values per class. After assertions a result still holds the value (identity '
+              'and contents); results held when the proxies are switched off keep working.')
 LEVEL_NOTE = ('The real value is read back from the proxy (its wrapped object) so both sides see the same object; '
               'operations that mutate their operand are not in the statement and not applied.')
 RULE = ('Cells = (operation, proxy placement, left operand class, right operand class). Proxies are obtained from real '
